@@ -183,9 +183,10 @@ def run(run_dir, module, cfg_text, workers=1, timeout=600, simulate=None, depth=
         f.write(cfg_text)
     meta = os.path.join(run_dir, 'meta-%s' % module)
     shutil.rmtree(meta, ignore_errors=True)
-    cmd = ['java', '-XX:+UseParallelGC', '-Xss' + xss]
-    if heap:
-        cmd.append('-Xmx' + heap)
+    cmd = ['java', '-XX:+UseParallelGC', '-XX:ParallelGCThreads=%d' % max(2, min(8, workers)), '-Xss' + xss,
+           '-Xmx' + (heap or ('3g' if workers == 1 else '12g'))]
+    if workers == 1 and not simulate:
+        cmd.append('-XX:TieredStopAtLevel=1')   # short single-worker runs: C1 only, 3x less CPU
     if dfs:
         cmd.append('-Dtlc2.tool.queue.IStateQueue=StateDeque')
     cmd += ['-cp', JAR + ':' + DEPS, 'tlc2.TLC', '-workers', str(workers), '-metadir', meta,
